@@ -135,9 +135,26 @@ def closure_failures(m1, m2, v, before):
         out.append(("aliases-input", f"{len(shared)} shared mutable containers"))
     if isinstance(m1, (list, dict)) and m1 is m2:
         out.append(("aliases-previous-result", "second call returned the identical container"))
+    else:
+        both = set(mutable_ids(m1)) & set(mutable_ids(m2))
+        if both:
+            out.append(("aliases-previous-result", f"two calls share {len(both)} nested mutable container(s)"))
     if before is not None and canon(v, strict=True) != before:
         out.append(("input-mutated", short(before, 200)))
     return out
+
+
+def scribble(o, depth=0):
+    if depth > 8:
+        return
+    if isinstance(o, list):
+        for e in o:
+            scribble(e, depth + 1)
+        o.append("<<scribbled>>")
+    elif isinstance(o, dict):
+        for e in list(o.values()):
+            scribble(e, depth + 1)
+        o["<<scribbled>>"] = 1
 
 
 def check_output(sh, tsrc, T, v, prog, tag, spec=None, v0=None):
@@ -157,6 +174,18 @@ def check_output(sh, tsrc, T, v, prog, tag, spec=None, v0=None):
         return
     sh.count("marshal_checked")
     fails = closure_failures(m1, m2, v, before)
+    # what a caller does to an earlier result must not show in a later one (freshly built on every call)
+    if not fails and isinstance(m1, (list, dict)):
+        want = canon(m1, strict=True)
+        scribble(m1)
+        try:
+            with quiet():
+                m3 = typelib.marshal(v, t=T)
+            sh.count("results_mutated_then_remarshalled")
+            if canon(m3, strict=True) != want:
+                fails = [("unstable-after-result-mutation", short(m3, 200))]
+        except Exception as e:  # noqa: BLE001
+            fails = [("unstable-after-result-mutation", f"raised {type(e).__name__}")]
     if not fails:
         return
     rec = dict(type_src=tsrc, value=short(v, 300), output=short(m1, 300), tag=tag, module_src=prog.source[-2500:])
